@@ -58,7 +58,7 @@ def parse_attribute_string(attr_string):
         for attribute in attributes_split:
             # Raises error on very invalid
             _validate_attribute_string(attribute)
-            split_attribute = attribute.split("=")
+            split_attribute = attribute.split("=", 1)
             if len(split_attribute) == 1:
                 final_attributes[split_attribute[0]] = True
             else:
